@@ -16,6 +16,7 @@ from . import _cmdspace as S
 ID = "C02"
 OPTIMISED_STRIDE = {"quick": 16, "thorough": 16}      # every k-th shard once more in an interpreter started with -O
 TRACE_STRIDE = {"quick": 16, "thorough": 16}      # every k-th shard once more with logging enabled down to TRACE
+BYTEORDER_STRIDE = {"quick": 20, "thorough": 20}      # every k-th shard once more with sys.byteorder reporting a big-endian host
 LEVEL = "exploration"
 ENGINE = "E1"
 TECHNIQUE = "exhaustive enumeration of constructor argument space; construct -> frame -> real decoder -> structural and library-level equality"
